@@ -412,8 +412,23 @@ func (nr *netRun) adversarialPhase() {
 					}
 				default:
 					msgs := advMessages(r, x, x.chid.ID, n == nr.B)
+					if n == nr.A {
+						// the counterparty of a channel this node initiated may ask for a restart of the existing channel
+						msgs = append(msgs, message.RestartExistingChannelRequest(x.chid), message.RestartExistingChannelRequest(x.chid))
+					}
 					msg := msgs[r.Intn(len(msgs))]
 					nr.deliver(other, n, msg, false, x)
+					// "incoming restart requests for it are refused": nothing is re-issued, nothing is accepted, the transport is not opened
+					for _, w := range n.Wire[before.nWire:] {
+						if (w.Dir == "send" || (w.Dir == "sent" && w.Carrier == "graphsync")) && w.Sum.TID == x.chid.ID && w.Sum.Restart && (w.Sum.Req || w.Sum.Accepted) {
+							r.Failf("C02", "restart-of-terminal-honoured", n.Name+"|"+Summarise(msg).Kind(), "node %s, whose channel #%d is %s, answered an incoming %s with %s", n.Name, x.idx, datatransfer.Statuses[s0.Status], Summarise(msg).Kind(), w.Sum)
+						}
+					}
+					for _, tc := range n.TpCalls[before.nTp:] {
+						if tc.Kind == "open" && tc.ChID == x.chid {
+							r.Failf("C02", "restart-of-terminal-honoured", n.Name+"|"+Summarise(msg).Kind()+"|transport-opened", "node %s, whose channel #%d is %s, opened a transport channel on an incoming %s", n.Name, x.idx, datatransfer.Statuses[s0.Status], Summarise(msg).Kind())
+						}
+					}
 				}
 				if now := n.Disk.rawBySuffix("/" + x.chid.String()); now != before.perChan[x.chid] {
 					after, _ := n.State(x.chid)
